@@ -36,6 +36,7 @@ func c16Flags(c *core.Ctx) {
 			continue
 		}
 		local := map[*types.Var][]string{}
+		addr := map[*types.Var]int{}
 		var pos = map[*types.Var]token.Pos{}
 		ast.Inspect(fd.Decl.Body, func(nd ast.Node) bool {
 			switch x := nd.(type) {
@@ -72,6 +73,16 @@ func c16Flags(c *core.Ctx) {
 						assigned[f] = true
 					}
 				}
+			case *ast.UnaryExpr:
+				// the address of an option handed to a registration helper or kept in a table
+				if x.Op == token.AND {
+					if f := core.FieldOf(info, x.X); f != nil {
+						addr[f]++
+						if !pos[f].IsValid() {
+							pos[f] = x.Pos()
+						}
+					}
+				}
 			case *ast.KeyValueExpr:
 				if id, ok := x.Key.(*ast.Ident); ok {
 					if f, ok := info.Uses[id].(*types.Var); ok && f.IsField() {
@@ -82,13 +93,22 @@ func c16Flags(c *core.Ctx) {
 			return true
 		})
 		var fs []*types.Var
+		registers := len(local) > 0
+		for f, k := range addr {
+			if k > 0 {
+				bound[f] = append(bound[f], "&")
+			}
+			if _, direct := local[f]; !direct && registers && isOptsField(f) {
+				local[f] = nil
+			}
+		}
 		for f := range local {
 			fs = append(fs, f)
 		}
 		sort.Slice(fs, func(i, j int) bool { return fs[i].Name() < fs[j].Name() })
 		for _, f := range fs {
-			c.Ob("C16-R9", fmt.Sprintf("%s#flag→%s", fd.Name(), f.Name()), pos[f], len(local[f]) == 1,
-				fmt.Sprintf("the flags %v are all bound to the option %s: giving any of them sets the same option, so one of them does not do what its name says (and the option it should set is never set)", local[f], f.Name()))
+			c.Ob("C16-R9", fmt.Sprintf("%s#flag→%s", fd.Name(), f.Name()), pos[f], len(local[f]) <= 1 && addr[f] <= 1,
+				fmt.Sprintf("the flags %v are all bound to the option %s (its address is taken %d times where the flags are registered): giving any of them sets the same option, so one of them does not do what its name says (and the option it should set is never set)", local[f], f.Name(), addr[f]))
 		}
 	}
 	// options read but never bound: members of the *Opts structures of the package
@@ -224,4 +244,9 @@ func (b *bodyCtx) knownEmpty(at ast.Node, want string) bool {
 		}
 	}
 	return false
+}
+
+// isOptsField: a member of one of the package's *Opts structures.
+func isOptsField(f *types.Var) bool {
+	return f.IsField() && f.Pkg() != nil && strings.HasSuffix(f.Pkg().Path(), "cmd/gobl")
 }
